@@ -45,7 +45,7 @@ Print Assumptions C18_clean_in_every_history.
    attempt is still served from the cache without opening anything. *)
 Theorem C18_cached_models_survive : forall fs fs' c f s e s' k v,
   Stable s -> load_main fs c f s = (inl e, s') -> cglobal c = true ->
-  dget k (allm s) = Some v -> flag_of fmp v s' = false ->
+  dget k (allm s) = Some v ->
   fst (load_main fs' c k s') = inr v /\ reads (snd (load_main fs' c k s')) = [].
 Proof. exact after_failure_cache_serves. Qed.
 Print Assumptions C18_cached_models_survive.
